@@ -1144,6 +1144,10 @@ func (app *App) ErrorHandler(ctx Ctx, err error) error {
 	)
 
 	path := ctx.Path()
+	if !app.config.CaseSensitive {
+		// the routes of a sub-app are found without regard to case, so is the sub-app itself
+		path = utils.ToLower(path)
+	}
 	for prefix, subApp := range app.mountFields.appList {
 		// only sub-apps that configured an error handler take part
 		if prefix == "" || subApp.configured.ErrorHandler == nil {
@@ -1152,6 +1156,9 @@ func (app *App) ErrorHandler(ctx Ctx, err error) error {
 		// the mount prefix has to end on a segment boundary of the path
 		rawLen := len(prefix)
 		prefix = utils.TrimRight(prefix, '/')
+		if !app.config.CaseSensitive {
+			prefix = utils.ToLower(prefix)
+		}
 		if !strings.HasPrefix(path, prefix) || (len(path) > len(prefix) && path[len(prefix)] != '/') {
 			continue
 		}
